@@ -13,7 +13,7 @@
    The generated pieces (Gen_refcnt, Gen_group): the rmw-loop bodies of _os_object_retain_weak and
    _dispatch_group_notify, the memory orders, constants and atomic-site lists. *)
 From Coq Require Import ZArith Bool List.
-From Verif Require Import Word Conc Gen_consts Gen_fields Gen_group Gen_refcnt.
+From Verif Require Import Word Conc Gen_consts Gen_group Gen_refcnt.
 Import ListNotations.
 Local Open Scope Z_scope.
 
@@ -56,8 +56,10 @@ Inductive kind :=
 | KPN     (* notify made the list non-empty, its _dispatch_retain not yet done *)
 | KD      (* duty to deliver the current batch: between the list's retain and setting HAS_NOTIFS / the snapshot *)
 | KXD     (* xref reached -1, _os_object_xref_dispose not yet past its barrier *)
-| KDP.    (* ref reached -1, _os_object_dispose / _dispatch_dispose not yet done *)
-Definition all_kinds := [KX; KI; KE; KQ; KPE; KPN; KD; KXD; KDP].
+| KDP     (* ref reached -1, _os_object_dispose / _dispatch_dispose not yet done *)
+| KB.     (* derived: borrowed references not matched by a pending retain = KX + KI - KPE - KPN (pointwise >= 0:
+             whoever owes a retain is inside a call that borrowed a reference) *)
+Definition all_kinds := [KX; KI; KE; KQ; KPE; KPN; KD; KXD; KDP; KB].
 
 Inductive bsrc := BX | BI | BN.                (* the reference a call borrows for its duration *)
 Inductive kont := KApi (b : bsrc) | KImpl.     (* API call (ends with DVU_RET) or library-internal leave on a worker *)
@@ -96,13 +98,13 @@ Definition hb (k : kind) (b : bsrc) : Z :=
 Definition hk (k : kind) (c : kont) : Z := match c with KApi b => hb k b | KImpl => 0 end.
 Definition one (k k' : kind) : Z :=
   match k, k' with
-  | KX, KX | KI, KI | KE, KE | KQ, KQ | KPE, KPE | KPN, KPN | KD, KD | KXD, KXD | KDP, KDP => 1
+  | KX, KX | KI, KI | KE, KE | KQ, KQ | KPE, KPE | KPN, KPN | KD, KD | KXD, KXD | KDP, KDP | KB, KB => 1
   | _, _ => 0
   end.
 
 (* tokens of kind k held by a thread at program point p whose ghost counter (continuations of a detached batch not
    yet submitted) is g *)
-Definition held (k : kind) (p : pc) (g : Z) : Z :=
+Definition held0 (k : kind) (p : pc) (g : Z) : Z :=
   match p with
   | PIdle | PCrash => 0
   | PRet b rx ri re => hb k b + rx * one k KX + ri * one k KI + re * one k KE
@@ -127,6 +129,11 @@ Definition held (k : kind) (p : pc) (g : Z) : Z :=
   | PNfRetain b => hb k b + one k KPN
   | PNfHead b | PNfLoad b => hb k b + one k KD
   | PNfCas b _ _ => hb k b + one k KD
+  end.
+Definition held (k : kind) (p : pc) (g : Z) : Z :=
+  match k with
+  | KB => held0 KX p g + held0 KI p g - held0 KPE p g - held0 KPN p g
+  | _ => held0 k p g
   end.
 
 (* ------------------------------------------------------------------ the per-thread automaton *)
@@ -263,27 +270,6 @@ Definition tstep (p : pc) (e : event) : option pc :=
       else tstep1 (wake_tail c (needs + 1) hw) e    (* the batch is exhausted: refs++ and go on *)
   | _ => tstep1 p e
   end.
-
-(* atomic sites of the modelled functions, in source order: must equal what src2v reads from the source *)
-Definition st (k : akind) (f : nat) (o : morder) : site := {| s_kind := k; s_field := f; s_order := o |}.
-Definition model_sites_retain := [st KAdd F_os_obj_xref_cnt Relaxed].
-Definition model_sites_release := [st KSub F_os_obj_xref_cnt Release].
-Definition model_sites_retain_internal := [st KAdd F_os_obj_ref_cnt Relaxed].
-Definition model_sites_release_internal := [st KSub F_os_obj_ref_cnt Release].
-Definition model_sites_retain_weak := [st KLoad F_os_obj_xref_cnt Relaxed; st KCasWeak F_os_obj_xref_cnt Relaxed].
-Definition model_sites_xref_dispose := [st KLoad F_os_obj_xref_cnt Acquire].
-Definition model_sites_dispatch_xref_dispose := [st KSub F_os_obj_ref_cnt Release].
-Definition model_sites_dispose := [st KLoad F_os_obj_ref_cnt Acquire].
-Definition model_sites_group_enter := [st KSub F_dg_bits Acquire; st KAdd F_os_obj_ref_cnt Relaxed].
-Definition model_sites_group_wake :=
-  [st KLoad F___n Acquire; st KStore F_dg_notify_head Relaxed; st KXchg F_dg_notify_tail Release;
-   st KLoad F_do_next Acquire; st KSub F_os_obj_ref_cnt Release (* dsn_queue *); st KSub F_os_obj_ref_cnt Release (* dg, refs *)].
-Definition model_sites_group_leave :=
-  [st KAdd F_dg_state Release; st KCas F_dg_state Relaxed] ++ model_sites_group_wake.
-Definition model_sites_group_notify :=
-  [st KAdd F_os_obj_ref_cnt Relaxed (* dq *); st KStore F_do_next Relaxed; st KXchg F_dg_notify_tail Release;
-   st KAdd F_os_obj_ref_cnt Relaxed (* dg *); st KStore F_do_next Relaxed; st KStore F_dg_notify_head Relaxed;
-   st KLoad F_dg_state Relaxed] ++ model_sites_group_wake ++ [st KCasWeak F_dg_state Release].
 
 (* ------------------------------------------------------------------ global model *)
 Inductive greg :=
@@ -506,4 +492,39 @@ Fixpoint seq_run (s : gst) (cs : list (Z * Z * Z)) : list (list Z) :=
                 | Some s' => obs s' :: seq_run s' cs'
                 | None => [[-99]]        (* the model refuses the call: an ill-behaved client or a model gap *)
                 end
+  end.
+
+(* the same for several threads, keeping the schedule (examples, replays): a call is (thread, op, internal?, arg);
+   op 0 = the library-internal dispatch_group_leave a worker performs after a dispatch_group_async item *)
+Fixpoint trace_to_idle (fuel : nat) (s : gst) (t : Z) (acc : list (Z * event)) : option (gst * list (Z * event)) :=
+  match fuel with
+  | O => None
+  | S fuel' =>
+      match pcs s t with
+      | PIdle => Some (s, acc)
+      | p => match synth (regs s) (gn s t) p with
+             | None => None
+             | Some e => match gstep s t e with
+                         | Some s' => trace_to_idle fuel' s' t (acc ++ [(t, e)])
+                         | None => None
+                         end
+             end
+      end
+  end.
+Definition first_event (s : gst) (c : Z * Z * Z * Z) : Z * event :=
+  let '(t, op, bi, arg) := c in
+  if op =? 0 then (t, ev0 DV_ADD MO_RELEASE OBJ_G OFF_STATE 8 (dgword (regs s)) INTERVAL 1)
+  else (t, ev0 DVU_CALL 0 OBJ_G 0 0 (op + 100 * bi) arg 1).
+Fixpoint sched_of (s : gst) (cs : list (Z * Z * Z * Z)) : option (list (Z * event)) :=
+  match cs with
+  | [] => Some []
+  | c :: cs' =>
+      let '(t, e) := first_event s c in
+      match gstep s t e with
+      | None => None
+      | Some s1 => match trace_to_idle 4000 s1 t [(t, e)] with
+                   | None => None
+                   | Some (s2, tr) => match sched_of s2 cs' with Some tr' => Some (tr ++ tr') | None => None end
+                   end
+      end
   end.
